@@ -73,12 +73,12 @@ func (eng) Rule(mode string) string {
 // ---------- JSON forms ----------
 
 type opJ struct {
-	Op     string  `json:"op"`            // set | adv | restore
-	Key    []byte  `json:"key,omitempty"` // set
-	T      int64   `json:"t,omitempty"`   // set: UnixNano; adv: watermark UnixNano
+	Op     string  `json:"op"`             // set | adv | restore
+	Key    []byte  `json:"key,omitempty"`  // set
+	T      int64   `json:"t,omitempty"`    // set: UnixNano; adv: watermark UnixNano
 	More   []int64 `json:"more,omitempty"` // set: further timestamps registered for the same key by the same handler result
-	Sr     int     `json:"sr,omitempty"`  // adv: sender number
-	How    string  `json:"how,omitempty"` // restore: same | ckpt
+	Sr     int     `json:"sr,omitempty"`   // adv: sender number
+	How    string  `json:"how,omitempty"`  // restore: same | ckpt
 	During []durJ  `json:"during,omitempty"`
 }
 type durJ struct {
@@ -88,9 +88,9 @@ type durJ struct {
 }
 
 type cfgJ struct {
-	Count    int   // key groups
-	NRanges  int   // operators
-	Range    int   // index of the driven operator
+	Count    int // key groups
+	NRanges  int // operators
+	Range    int // index of the driven operator
 	Cache    uint64
 	MemTable uint64
 	SrIDs    []int
@@ -153,16 +153,16 @@ func srName(i int) string { return fmt.Sprintf("sr%d", i) }
 // ---------- generation ----------
 
 type genState struct {
-	r       *hx.Rand
-	ks      *partitioning.KeySpace
-	rng     partitioning.KeyGroupRange
-	keys    [][]byte
-	unit    int64
-	dom     int
-	srids   []int
-	known   map[int]bool // upstream map entries since the last restore
-	wmOf    map[int]int64
-	ops     []json.RawMessage
+	r     *hx.Rand
+	ks    *partitioning.KeySpace
+	rng   partitioning.KeyGroupRange
+	keys  [][]byte
+	unit  int64
+	dom   int
+	srids []int
+	known map[int]bool // upstream map entries since the last restore
+	wmOf  map[int]int64
+	ops   []json.RawMessage
 }
 
 func (g *genState) ts() int64 {
@@ -347,9 +347,9 @@ func genCase(r *hx.Rand, idx int, tier string) *hx.Case {
 	}
 	g.finalDrain()
 	return &hx.Case{
-		Name: fmt.Sprintf("timers-%d", idx),
+		Name:   fmt.Sprintf("timers-%d", idx),
 		Params: map[string]any{"mode": "c10", "count": count, "nranges": nr, "range": ri, "cache": cache, "memtable": mem, "srids": srids},
-		Ops:  g.ops,
+		Ops:    g.ops,
 	}
 }
 
@@ -383,8 +383,6 @@ type firedJ struct {
 func coqFired(f firedJ) string { return hx.CoqPair(hx.CoqBytes(f.K), hx.CoqZ(f.T)) }
 
 var debug = os.Getenv("TIMERS_DEBUG") != ""
-
-var noCkpt = os.Getenv("TIMERS_NOCKPT") != "" // debugging only: every restore re-uses the DB object
 
 var hasTables = regexp.MustCompile(`, tables [1-9]`)
 
@@ -531,7 +529,7 @@ func (eng) execute(mode string, c *hx.Case) (*hx.Result, error) {
 			if err := db.WaitOnTasks(); err != nil {
 				return nil, fmt.Errorf("op %d: WaitOnTasks: %v", i, err)
 			}
-			if o.How == "ckpt" && !noCkpt {
+			if o.How == "ckpt" {
 				ckptID++
 				h, err := db.Checkpoint(ckptID)()
 				if err != nil {
